@@ -186,8 +186,9 @@ def _rand_occ(rng, b, p=None):
 class Recorder:
     """collects model request lines with the implementation's answers"""
 
-    def __init__(self, ctx):
+    def __init__(self, ctx, driver=None):
         self.ctx, self.lines, self.expect, self.meta = ctx, [], [], []
+        self.driver = driver or DRIVER
 
     def add(self, line, expect, b, hist, tail=None, kind='plain', extra=None):
         # hist is append-only: remember its current length instead of copying it
@@ -195,7 +196,7 @@ class Recorder:
 
     def compare(self):
         ctx = self.ctx
-        got = ctx.lean(DRIVER, self.lines)
+        got = ctx.lean(self.driver, self.lines)
         nd = 0
         for g, e, l, (b, hist, hlen, tail, kind, extra) in zip(got, self.expect, self.lines, self.meta):
             g0 = g
